@@ -22,6 +22,12 @@ func optsFor(v px.Ver) phpgen.Options { return progs.Options(v) }
 
 func meta(v px.Ver) map[string]string { return map[string]string{"version": v.String()} }
 
+// metaShape adds the structure the generator derived (kinds, roles, values), so that a recorded tree
+// mismatch can be replayed from the replay file alone.
+func metaShape(v px.Ver, model ast.Vertex) map[string]string {
+	return map[string]string{"version": v.String(), "expected_shape": astx.Shape(model)}
+}
+
 func TestGenerated(t *testing.T) {
 	harness.Check(t, "generated", 40000, 1500000, func(rt *rapid.T) {
 		v := rapid.SampledFrom(px.KeyVersions).Draw(rt, "version")
@@ -41,7 +47,7 @@ func TestGenerated(t *testing.T) {
 			harness.Fail(rt, "nil-root", src, meta(v), "[%s] no errors but nil root", v)
 		}
 		if d := astx.Equal(r.Root, root, astx.Structure); d != "" {
-			harness.Fail(rt, "tree", src, meta(v), "[%s] parsed tree differs from the generator's derivation (parsed vs model): %s\nsource: %q", v, d, src)
+			harness.Fail(rt, "tree", src, metaShape(v, root), "[%s] parsed tree differs from the generator's derivation (parsed vs model): %s\nsource: %q", v, d, src)
 		}
 		if d := astx.Equal(r.Root, root, astx.WithTokens|astx.WithPositions); d != "" {
 			harness.Fail(rt, "tokens", src, meta(v), "[%s] parsed tokens/positions differ from the generator's (parsed vs model): %s\nsource: %q", v, d, src)
@@ -256,12 +262,26 @@ func TestReplay(t *testing.T) {
 			continue
 		}
 		r := px.Parse(src, v, true)
+		harness.Eval()
 		if r.Panic != "" || len(r.Errs) > 0 {
 			harness.Failf(t, vi.Check, src, meta(v), "[%s] the recorded program is (still) rejected: %s%s", v, r.Panic, px.ErrString(r.Errs))
 			return
 		}
+		if want := vi.Meta["expected_shape"]; want != "" {
+			if got := astx.Shape(r.Root); got != want {
+				lw, lg := strings.Split(want, "\n"), strings.Split(got, "\n")
+				d := fmt.Sprintf("%d vs %d lines", len(lw), len(lg))
+				for i := 0; i < len(lw) && i < len(lg); i++ {
+					if lw[i] != lg[i] {
+						d = fmt.Sprintf("line %d: expected %q, parsed %q", i, strings.TrimSpace(lw[i]), strings.TrimSpace(lg[i]))
+						break
+					}
+				}
+				harness.Failf(t, vi.Check, src, vi.Meta, "[%s] the recorded program (still) parses to a different tree than the generator derived: %s", v, d)
+				return
+			}
+		}
 	}
-	t.Log("the recorded program parses without errors; tree comparisons replay through the rapid seed in the replay file")
 }
 
 // TestOperatorNests: the exhaustive operator-nest enumeration (phpgen/opnest.go) — every operator
@@ -282,8 +302,13 @@ func TestOperatorNests(t *testing.T) {
 				r := px.Parse(src, v, true)
 				harness.Eval()
 				harness.Class("operator-nest")
+				nestShape := ""
 				fail := func(clause, format string, a ...interface{}) bool {
-					harness.Failf(t, "operator-nests/"+clause, src, meta(v), "[%s] %s: %s\nsource: %q", v, name, fmt.Sprintf(format, a...), src)
+					m := meta(v)
+					if nestShape != "" {
+						m["expected_shape"] = nestShape
+					}
+					harness.Failf(t, "operator-nests/"+clause, src, m, "[%s] %s: %s\nsource: %q", v, name, fmt.Sprintf(format, a...), src)
 					failed = true
 					return false
 				}
@@ -294,6 +319,7 @@ func TestOperatorNests(t *testing.T) {
 					return fail("valid-rejected", "valid expression rejected: %s", px.ErrString(r.Errs))
 				}
 				if d := astx.Equal(r.Root, np.Root, astx.Structure); d != "" {
+					nestShape = astx.Shape(np.Root)
 					return fail("tree", "parsed tree differs from the enumerated one (parsed vs model): %s", d)
 				}
 				if d := astx.Equal(r.Root, np.Root, astx.WithTokens|astx.WithPositions); d != "" {
